@@ -70,50 +70,90 @@ func hDigits(n int) string {
 	return s
 }
 
-// hSegmentPiece: one unit of a canonical did:web path segment: an idchar, the canonical (upper-case) escape
-// of a special character, or any escape of a byte that is neither special nor '%' (hex digits of either case).
-func hSegmentPiece() string {
-	switch vChoice(3) {
-	case 0:
-		return hIDChars(1)
-	case 1:
-		vTag("special")
-		c := vU8()
-		vAssume(hIsSpecial(c))
-		return "%" + string([]byte{hUpperHex(c >> 4), hUpperHex(c & 15)})
+// Escapes a path segment of a did:web id may contain besides the canonical escapes of the special characters.
+// Chosen concretely (a symbolic escape makes every later byte an if-then-else term and the run ~50x slower).
+var (
+	hSpecials = "~:+@!$&'()*,;=" // order: the parameter `specials` takes a prefix
+	// equivalent spellings that net/url keeps as written (RawPath): '/', unreserved characters, lower-case hex
+	hEscapesKept = []string{"%2F", "%2f", "%41", "%2E", "%3f"}
+	// canonical escapes of ASCII bytes that net/url itself would escape in a path (so RawPath stays empty)
+	hEscapesASCII = []string{"%20", "%22", "%5B", "%7C"}
+	// canonical escapes of non-ASCII bytes: single byte, two- and three-byte UTF-8 sequences
+	hEscapesNonASCII = []string{"%80", "%C3%A9", "%C5%81", "%E2%82%AC"}
+)
+
+const (
+	hpIDChar = iota
+	hpSpecial
+	hpKept
+	hpASCII
+	hpNonASCII
+)
+
+// hSegmentPiece: one unit of a did:web path segment; kinds < maxKind are drawn.
+func hSegmentPiece(maxKind int) (string, int) {
+	switch k := vChoice(maxKind); k {
+	case hpIDChar:
+		return hIDChars(1), k
+	case hpSpecial:
+		ns := vParam("specials", len(hSpecials))
+		if ns > len(hSpecials) {
+			ns = len(hSpecials)
+		}
+		c := hSpecials[vChoice(ns)]
+		return "%" + string([]byte{hUpperHex(c >> 4), hUpperHex(c & 15)}), k
+	case hpKept:
+		return hEscapesKept[vChoice(len(hEscapesKept))], k
+	case hpASCII:
+		return hEscapesASCII[vChoice(len(hEscapesASCII))], k
+	default:
+		return hEscapesNonASCII[vChoice(len(hEscapesNonASCII))], k
 	}
-	vTag("escape")
-	e := vString(2)
-	h, ok1 := hHexVal(e[0])
-	l, ok2 := hHexVal(e[1])
-	vAssume(ok1 && ok2)
-	v := h<<4 | l
-	vAssume(!hIsSpecial(v) && v != '%')
-	return "%" + e
 }
 
-// H18b1: id -> URL -> id on canonical did:web ids:
+// H18b1: id -> URL -> id on did:web ids of the shape
 //
 //	id = host [ "%3A" port ] *( ":" segment ); host = 1*idchar; port = 1*DIGIT; segment = 1*piece
+//	piece = idchar / canonical escape of a special character / another escape except %25, %3F, %23
 //
-// (no doubly-encoded characters: "%25" is not a piece). Completeness is asserted too: such an id - whose
-// host is too short to be an IP literal at these bounds - must be accepted.
+// i.e. a domain name, optional port and path segments free of query, fragment and doubly-encoded characters.
+// Completeness is asserted too: such an id - whose host is too short to be an IP literal at these bounds -
+// must be accepted. A second segment, if any, is the literal "x" (bounds the product).
 func H18b1() {
-	id := hIDChars(vLen(1, vParam("host", 2)))
+	id := "a" + hIDChars(vLen(0, vParam("host", 1)))
 	if vBool() {
 		vCover("port")
 		id += "%3A" + hDigits(vLen(1, vParam("port", 1)))
 	}
 	ns := vLen(0, vParam("segs", 2))
+	worst := hpIDChar
 	for i := 0; i < ns; i++ {
 		id += ":"
+		if i > 0 {
+			id += "x"
+			continue
+		}
 		np := vLen(1, vParam("pieces", 2))
 		for j := 0; j < np; j++ {
-			id += hSegmentPiece()
+			pc, kind := hSegmentPiece(vParam("kinds", 5))
+			id += pc
+			if kind > worst {
+				worst = kind
+			}
 		}
 	}
 	if ns > 0 {
 		vCover("segments")
+	}
+	switch worst {
+	case hpSpecial:
+		vCover("special-escape")
+	case hpKept:
+		vCover("kept-escape")
+	case hpASCII:
+		vClass("segment with an escaped ASCII byte that net/url escapes itself (space, quote, bracket, bar)")
+	case hpNonASCII:
+		vClass("segment with an escaped non-ASCII byte")
 	}
 	u, err := DIDToURL(did.DID{Method: "web", ID: id})
 	vAssert(err == nil, "H18b1.canonical_id_accepted: DIDToURL refuses a canonical did:web id")
@@ -130,7 +170,8 @@ func H18b1() {
 }
 
 func H18b1_twin() {
-	id := hIDChars(1) + "%3A" + hDigits(1) + ":" + hSegmentPiece()
+	pc, _ := hSegmentPiece(3)
+	id := hIDChars(1) + "%3A" + hDigits(1) + ":" + pc
 	u, err := DIDToURL(did.DID{Method: "web", ID: id})
 	if err != nil {
 		return
@@ -147,7 +188,7 @@ func hIsPcharNoEscape(c byte) bool {
 }
 
 func hURLString(segByte func(c byte) bool) string {
-	s := "https://" + hIDChars(vLen(1, vParam("host", 2)))
+	s := "https://a" + hIDChars(vLen(0, vParam("host", 1)))
 	if vBool() {
 		vCover("port")
 		s += ":" + hDigits(vLen(1, vParam("port", 1)))
@@ -188,9 +229,12 @@ func H18b2() {
 	if err != nil || back == nil {
 		return
 	}
-	vAssert(back.String() == s, "H18b2.roundtrip_url: DIDToURL(URLToDID(u)) != u")
-	vAssert(back.Scheme == u.Scheme && back.Host == u.Host && back.Path == u.Path && back.RawQuery == "" && back.Fragment == "",
-		"H18b2.roundtrip_url_fields: DIDToURL(URLToDID(u)) differs from u in scheme, host or path")
+	// both are results of url.Parse: equal iff their fields are
+	vAssert(back.Scheme == u.Scheme && back.Host == u.Host && back.User == nil && back.Opaque == "",
+		"H18b2.roundtrip_origin: DIDToURL(URLToDID(u)) differs from u in scheme or authority")
+	vAssert(back.Path == u.Path && back.RawPath == u.RawPath, "H18b2.roundtrip_path: DIDToURL(URLToDID(u)) differs from u in its path")
+	vAssert(back.RawQuery == "" && !back.ForceQuery && back.Fragment == "" && back.RawFragment == "",
+		"H18b2.roundtrip_no_query: DIDToURL(URLToDID(u)) has a query or fragment")
 }
 
 func H18b2_twin() {
